@@ -28,7 +28,57 @@ class Obligation(object):
     self.model = None
 
   def formula(self):
-    return z3.And(self.hyps + [z3.Not(self.goal)])
+    from pvc.nnf import normalise
+    return z3.And(normalise(self.hyps, self.goal))
+
+
+def skolemize_goal(g, depth=0):
+  """Replace universally quantified variables in positive positions of a goal by fresh constants
+  (validity preserving); z3 decides the ground version instantly where the quantified one times out."""
+  if depth > 40:
+    return g
+  if z3.is_quantifier(g) and g.is_forall():
+    n = g.num_vars()
+    consts = [z3.Const(fresh_name('sk_' + g.var_name(i)), g.var_sort(i)) for i in range(n)]
+    body = z3.substitute_vars(g.body(), *reversed(consts))
+    return skolemize_goal(body, depth + 1)
+  if z3.is_quantifier(g) and g.is_exists():
+    return goal_exists_with_triggers(g)
+  if z3.is_app(g):
+    k = g.decl().kind()
+    if k == z3.Z3_OP_IMPLIES:
+      a = g.arg(0)
+      if z3.is_quantifier(a) and a.is_exists():
+        # (exists x. B) => c   ==   forall x. (B => c)
+        n = a.num_vars()
+        consts = [z3.Const(fresh_name('sk_' + a.var_name(i)), a.var_sort(i)) for i in range(n)]
+        a = z3.substitute_vars(a.body(), *reversed(consts))
+      return z3.Implies(a, skolemize_goal(g.arg(1), depth + 1))
+    if k in (z3.Z3_OP_EQ, z3.Z3_OP_IFF) and g.arg(0).sort() == z3.BoolSort() and _has_quant(g):
+      l, r = g.arg(0), g.arg(1)
+      return z3.And(skolemize_goal(z3.Implies(l, r), depth + 1), skolemize_goal(z3.Implies(r, l), depth + 1))
+    if k == z3.Z3_OP_AND:
+      return z3.And([skolemize_goal(a, depth + 1) for a in g.children()])
+    if k == z3.Z3_OP_OR:
+      kids = g.children()
+      # skolemize at most one quantified disjunct (others stay as they are: still sound)
+      out, done = [], False
+      for a in kids:
+        if not done and z3.is_quantifier(a) and a.is_forall():
+          out.append(skolemize_goal(a, depth + 1))
+          done = True
+        elif z3.is_quantifier(a) and a.is_exists():
+          out.append(goal_exists_with_triggers(a))
+        else:
+          out.append(a)
+      return z3.Or(out)
+  return g
+
+
+def _has_quant(e, budget=[0]):
+  if z3.is_quantifier(e):
+    return True
+  return any(_has_quant(c) for c in e.children())
 
 
 class Exec(SpecMixin, ExprMixin, CallMixin, BuiltinMixin, StmtMixin):
@@ -52,17 +102,20 @@ class Exec(SpecMixin, ExprMixin, CallMixin, BuiltinMixin, StmtMixin):
     self._feas_cache = {}
     self.n_paths = 0
     self.n_pruned = 0
+    self.axioms = []
+    self.pure_axiomatised = set()
 
   # ---------------------------------------------------------------- plumbing
 
-  def oblige(self, name, st, goal, detail=''):
+  def oblige(self, name, st, goal, detail='', assume_after=True):
     if z3.is_true(z3.simplify(goal)):
       ob = Obligation(name, [], z3.BoolVal(True), detail)
       ob.status, ob.solver = 'proved', 'simplifier'
       self.obligations.append(ob)
       return
     self.obligations.append(Obligation(name, st.pc, goal, detail))
-    st.assume(goal)
+    if assume_after:
+      st.assume(goal)
 
   def feasible(self, st):
     s = z3.Solver()
@@ -107,6 +160,8 @@ class Exec(SpecMixin, ExprMixin, CallMixin, BuiltinMixin, StmtMixin):
       st.heap.fld_sorts[f] = sort_of(t)
     a = node.args
     cls = modinfo.class_of(c.local_name) if c else None
+    if cls:
+      cls = self.world.class_for(modinfo.name, cls)
     params = [p.arg for p in a.posonlyargs + a.args + a.kwonlyargs]
     if a.vararg:
       params.append(a.vararg.arg)
@@ -131,26 +186,83 @@ class Exec(SpecMixin, ExprMixin, CallMixin, BuiltinMixin, StmtMixin):
       if gname == 'params':
         continue
       st.env[gname] = ops.fresh_val(parse_type(gty), gname, st)
-    st.assume(z3.Not(st.heap.alloc(NONE)))
+    self.ref_fields = self.relevant_ref_fields(node)
+    ops.heap_wf(st, st.heap, self.ref_fields, self.field_kinds, self.value_kinds)
     self.class_axioms(st)
     return st
 
+  def relevant_ref_fields(self, node):
+    import re
+    text = ast.unparse(node)
+    c = self.contract
+    specs = list(c.requires) + list(c.ensures) + [i for l in c.loops.values() for i in l.get('inv', ())]
+    short = set(re.findall(r'\w+', text))
+    for other in self.world.contracts.values():
+      if other.name.rsplit('.', 1)[-1] in short:
+        specs += list(other.requires) + list(other.ensures)
+    words = short | set(re.findall(r'\w+', ' '.join(specs)))
+    words |= set(re.findall(r'\w+', ' '.join(str(t) for t in c.types.values())))
+    words |= set(re.findall(r'\w+', ' '.join(str(t) for t in c.locals_.values())))
+    self.words = words
+    out = []
+    self.field_kinds = {}
+    self.value_kinds = {}
+    for f, t in sorted(self.world.field_types.items()):
+      if f in words and sort_of(t) == U:
+        out.append(f)
+        decls = [ci.fields[f] for ci in self.world.classes.values() if f in ci.fields]
+        pref = [self.world.classes[cn].fields[f] for cn in self.preferred_classes()
+                if cn in self.world.classes and f in self.world.classes[cn].fields]
+        if pref:
+          decls = pref[:1]
+        vks = {d.args[1].kind for d in decls if d.kind == 'dict' and len(d.args) > 1}
+        if len(vks) == 1 and next(iter(vks)) in KIND_CODE and all(d.kind == 'dict' for d in decls):
+          self.value_kinds[f] = KIND_CODE[next(iter(vks))]
+        kinds = {d.kind for d in decls}
+        if len(kinds) == 1:
+          k = next(iter(kinds))
+          if k in KIND_CODE:
+            self.field_kinds[f] = KIND_CODE[k]
+          elif k == 'obj':
+            self.field_kinds[f] = 0
+    return out
+
+  def preferred_classes(self):
+    """Classes named by the contract (receiver first): their field declarations win over homonyms."""
+    c = self.contract
+    out = []
+    try:
+      mi = self.world.module(c.module)
+      cls = mi.class_of(c.local_name) if not c.source else None
+      if cls:
+        out.append(self.world.class_for(mi.name, cls))
+    except SpecError:
+      pass
+    import re
+    for t in list(c.types.values()) + list(c.locals_.values()):
+      for wd in re.findall(r'\w+', str(t)):
+        if wd in self.world.classes and wd not in out:
+          out.append(wd)
+    return out
+
   def class_axioms(self, st):
-    names = set(self.world.classes)
-    for cname in names:
-      for sup in self.world.supers(cname):
-        st.assume(subcls(cls_const(cname), cls_const(sup)))
-    allc = sorted(names | {'bool', 'int', 'str', 'tuple', 'set', 'frozenset', 'dict', 'list', 'NoneType',
-                           'WeakSet'})
+    """Subclass facts, restricted to the classes this function and its contracts mention."""
+    import re
+    words = getattr(self, 'words', set())
+    declared = set(self.world.classes)
+    names = {c for c in declared if c in words}
+    for c in list(names):
+      names.update(s_ for s_ in self.world.supers(c) if s_ in declared)
+    prim = {'bool', 'int', 'str', 'tuple', 'set', 'frozenset', 'dict', 'list', 'NoneType', 'WeakSet'}
+    allc = sorted(names | prim)
     st.assume(z3.Distinct(*[cls_const(nm) for nm in allc]))
     for cname in allc:
-      st.assume(subcls(cls_const(cname), cls_const(cname)))
-      sups = set(self.world.supers(cname)) if cname in names else {cname}
+      sups = set(self.world.supers(cname)) if cname in declared else {cname}
       if cname == 'bool':
         sups.add('int')
       for other in allc:
-        if other not in sups:
-          st.assume(z3.Not(subcls(cls_const(cname), cls_const(other))))
+        f = subcls(cls_const(cname), cls_const(other))
+        st.assume(f if other in sups else z3.Not(f))
     st.assume(typeof(NONE) == cls_const('NoneType'))
 
   def run(self):
@@ -167,6 +279,7 @@ class Exec(SpecMixin, ExprMixin, CallMixin, BuiltinMixin, StmtMixin):
     self.cur_mod = modinfo
     self.base_line = node.lineno
     self.register_loops(node)
+    self.check_private(node)
     for k in c.loops:
       if isinstance(k, int) and k >= len(loop_nodes_cached(node)):
         raise SpecError('contract mentions loop %d but %s has %d loops' % (k, c.name, len(loop_nodes_cached(node))))
@@ -186,7 +299,30 @@ class Exec(SpecMixin, ExprMixin, CallMixin, BuiltinMixin, StmtMixin):
       outcomes.append((kind, st1, v))
       self.check_exit(kind, st1, v)
     self.outcomes = outcomes
+    for ob in self.obligations:
+      if ob.status is None:
+        ob.hyps = ob.hyps + self.axioms
     return self.obligations
+
+  def check_private(self, node):
+    """Syntactic non-escape check for the locals the contract declares private."""
+    priv = set(self.contract.private)
+    if not priv:
+      return
+    parents = {}
+    for p_ in ast.walk(node):
+      for ch in ast.iter_child_nodes(p_):
+        parents[id(ch)] = p_
+    for n in ast.walk(node):
+      if isinstance(n, ast.Name) and n.id in priv and isinstance(n.ctx, ast.Load):
+        par = parents.get(id(n))
+        ok = (isinstance(par, ast.Attribute) and isinstance(parents.get(id(par)), ast.Call)
+              and parents[id(par)].func is par) \
+            or (isinstance(par, ast.Compare) and n in par.comparators) \
+            or isinstance(par, (ast.While, ast.If, ast.UnaryOp, ast.BoolOp)) \
+            or (isinstance(par, ast.For) and par.iter is n)
+        if not ok:
+          raise Unsupported('private local %s escapes (used in %s)' % (n.id, type(par).__name__))
 
   def check_exit(self, kind, st, v):
     c = self.contract
@@ -228,6 +364,7 @@ class Exec(SpecMixin, ExprMixin, CallMixin, BuiltinMixin, StmtMixin):
     if c.modifies is not None and '*' in c.modifies:
       return
     objs, fields = [], {}
+    objkinds = {}
     pre = self.entry_cx
     for m in (c.modifies or []):
       node = parse_spec(m)
@@ -236,23 +373,28 @@ class Exec(SpecMixin, ExprMixin, CallMixin, BuiltinMixin, StmtMixin):
       else:
         if isinstance(node, ast.Call) and isinstance(node.func, ast.Name) and node.func.id == 'contents':
           node = node.args[0]
-        objs.append(to_u(self.sv(node, pre), pre))
+        ov = self.sv(node, pre)
+        objs.append(to_u(ov, pre))
+        objkinds[len(objs) - 1] = ov.ty.kind if isinstance(ov, VRef) else None
     h0, h1 = pre.heap, st.heap
     o = z3.Const(fresh_name('o'), U)
     e = z3.Const(fresh_name('e'), U)
     i = z3.Const(fresh_name('i'), I)
-    untouched = z3.And([h0.alloc(o)] + [o != m for m in objs])
+    compkinds = {'mem': ('set',), 'dom': ('dict',), 'val': ('dict',), 'len': ('list', 'vtuple'),
+                 'item': ('list', 'vtuple')}
     for comp, vars_, mk in (('mem', [o, e], lambda h: h.mem(o, e)), ('dom', [o, e], lambda h: h.dom(o, e)),
                             ('val', [o, e], lambda h: h.val(o, e)), ('len', [o], lambda h: h.len(o)),
                             ('item', [o, i], lambda h: h.item(o, i))):
       if h1.c.get(comp) is h0.c.get(comp):
         continue
+      untouched = z3.And([h0.alloc(o)] + [o != m for j, m in enumerate(objs)
+                                          if objkinds.get(j) in compkinds[comp] + (None, 'any', 'opt', 'union')])
       guard = untouched
       if comp == 'val':
         guard = z3.And(untouched, h0.dom(o, e))
       if comp == 'item':
         guard = z3.And(untouched, i >= 0, i < h0.len(o))
-      self.oblige('frame/%s' % comp, st, z3.ForAll(vars_, z3.Implies(guard, mk(h1) == mk(h0))),
+      self.oblige('frame/%s' % comp, st, ForAllT(vars_, z3.Implies(guard, mk(h1) == mk(h0))),
                   detail='only %s may be modified' % (c.modifies or 'nothing'))
     for nm in h1.names():
       if isinstance(nm, tuple) and h1.c.get(nm) is not h0.c.get(nm):
@@ -264,7 +406,7 @@ class Exec(SpecMixin, ExprMixin, CallMixin, BuiltinMixin, StmtMixin):
           excl = fields.get(f, [])
         f1, f0 = h1.get(nm), h0.get(nm)
         self.oblige('frame/field:%s' % f, st,
-                    z3.ForAll([o], z3.Implies(z3.And([h0.alloc(o)] + [o != b for b in excl]), f1(o) == f0(o))),
+                    ForAllT([o], z3.Implies(z3.And([h0.alloc(o)] + [o != b for b in excl]), f1(o) == f0(o))),
                     detail='field %s may only change on the objects listed in modifies' % f)
 
 
